@@ -69,7 +69,12 @@ theorem C09_leImpl_ok : LE leImpl := by
     have h3 : (q :: (body.reverse ++ [q])).dropWhile isWs = q :: (body.reverse ++ [q]) := by simp [List.dropWhile, hws]
     rw [h3]
     simp
+  have hq2 : (q == ' ' || q == '\t') = false := by rcases hq with rfl | rfl <;> decide
+  have hind : indentedStart (q :: (body ++ [q])) = false := by
+    simp [indentedStart, List.dropWhile, List.takeWhile, hq2, hws]
   unfold leImpl
+  rw [hind]
+  simp only [Bool.false_eq_true, if_false]
   rw [hstrip]
   unfold leCore
   simp only [hqq, ↓reduceIte, hlast, hdl]
